@@ -115,10 +115,10 @@ func (in *condInst) validRef() bool {
 }
 
 func renderExpr(v any) string {
-	if s, ok := stackage.ConvertStack(v); ok {
+	if s, ok := refAsStack(v); ok {
 		return s.String() // a Stack alias renders as the native Stack, whatever String method it declares
 	}
-	if c, ok := stackage.ConvertCondition(v); ok {
+	if c, ok := refAsCond(v); ok {
 		return c.String()
 	}
 	switch tv := v.(type) {
